@@ -24,8 +24,22 @@ def comp_misc(script):
     c2 = Composition(); t3 = Track(); t3 + "C"; c2.add_track(Track()); c2.add_track(t3)
     return [len(c), len(c[0]), len(c[1]), c[1] is t2, t2 == t3, t1 == Track(), len(t2[0]), t2[0] == t3[0]]
 
-IMPL = {"track.run": machines.run_track, "comp.run": machines.run_comp, "comp.misc": comp_misc}
-NO_MODEL = {"comp.misc"}
+def track_eq(ops_a, ops_b):
+    """two tracks built by the two histories: ==, == the other way round, != ; and the same for compositions holding them"""
+    def build(ops):
+        t = Track()
+        for op in ops:
+            machines.track_step(t, op)
+        return t
+    a, b = build(ops_a), build(ops_b)
+    ca, cb = Composition(), Composition()
+    ca.add_track(a); cb.add_track(b)
+    def contents(t):      # what equality is about: bar by bar, the entries (beat, value, notes by pitch or rest)
+        return [[[F(e[0]), F(e[1]), None if e[2] is None else sorted(int(n) for n in e[2])] for e in b.bar] for b in t.bars]
+    return [a == b, b == a, contents(a) == contents(b), ca == cb, cb == ca, len(a), len(b)]
+
+IMPL = {"track.run": machines.run_track, "comp.run": machines.run_comp, "comp.misc": comp_misc, "track.eq": track_eq}
+NO_MODEL = {"comp.misc", "track.eq"}
 def has_model(c):
     return c["fn"] not in NO_MODEL
 
@@ -60,7 +74,10 @@ def cases(tier, rng):
     for instr in machines.INSTR:
         raws = [[["obj", "G", 4], ["obj", "C", 4], ["obj", "E", 4]], [["obj", "C", 4], ["obj", "C", 9], ["obj", "E", 4]],
                 [["obj", "E", 4], ["obj", "C", 0], ["obj", "G", 4]], [["obj", "C", 9], ["obj", "C", 4]], [["obj", "C", 4], ["obj", "C", 9]],
-                [["obj", "G", 5], ["obj", "C", 0], ["obj", "C", 9], ["obj", "E", 4]], [["obj", "B", 6], ["obj", "E", 3]]]
+                [["obj", "G", 5], ["obj", "C", 0], ["obj", "C", 9], ["obj", "E", 4]], [["obj", "B", 6], ["obj", "E", 3]],
+                # spelled across an octave line: the PITCH decides (Cb-9 is B-8, B#-7 is C-8, Fb-7 is E-7, E#-0 is F-0, Cb-0 is below C-0)
+                [["obj", "Cb", 9]], [["obj", "C", 4], ["obj", "Cbb", 9]], [["obj", "B#", 7]], [["obj", "Fb", 7]], [["obj", "E#", 0]],
+                [["obj", "Cb", 0]], [["obj", "B#", 8]], [["obj", "Dbb", 3], ["obj", "Fb", 3]]]
         yield Case("track.run", [instr, [["add_raw", r, 4] for r in raws]], "instrument/raw-list/" + instr, kind=("rawrange", instr))
     # a free-meter bar (0, 0) is never full: everything added after it lands in that one bar
     for instr in ("none", "Piano"):
@@ -96,6 +113,13 @@ def cases(tier, rng):
          ["select", []], ["add_note", C4], ["select", [1]], ["add_note", C4]],
         [["add_track", "none"], ["add_track", "none"], ["select", [0, 1]]] + [["add_note", CHORD]] * 6,
     ]
+    # equality follows the contents: every ordered pair of a pool that contains prefixes of one another
+    pool = [[], [["add", C4, 4]], [["add", C4, 4]] * 4, [["add", C4, 4]] * 5, [["add", C4, 1]], [["add", C4, 1], ["add", C4, 1]],
+            [["add", C4, 1], ["add", CHORD, 1]], [["add", CHORD, 4]], [["add", None, 4]], [["add", C4, 1], ["add", None, 1], ["add", C4, 1]],
+            [["add_bar", "C", 4, 4]], [["add_bar", "Eb", 3, 4]], [["add_bar", "C", 4, 4], ["add_bar", "C", 4, 4]]]
+    for a in pool:
+        for b in pool:
+            yield Case("track.eq", [a, b], "equality", model=False, kind=("eq",))
     for sc in scripts:
         yield Case("comp.run", [sc], "composition", kind=("comp",))
     yield Case("comp.misc", [[]], "composition/misc", model=False, kind=("misc",))
@@ -194,6 +218,15 @@ def oracle(c, obs):
                 return "a note inside the instrument's range was refused"
             if not want and st != Err("InstrumentRangeError"):
                 return "a note outside the instrument's range was not refused with InstrumentRangeError"
+        return None
+    if kind[0] == "eq":
+        if isinstance(obs, Err):
+            return "comparing two tracks raised %s" % obs.name
+        eq_ab, eq_ba, same, ceq_ab, ceq_ba, la, lb = obs
+        if eq_ab is not same or eq_ba is not same:
+            return "track equality does not follow the contents (or is not symmetric)"
+        if ceq_ab is not same or ceq_ba is not same:
+            return "composition equality does not follow the tracks' contents"
         return None
     if kind[0] == "freebar":
         ops = c["args"][1]
